@@ -200,6 +200,8 @@ def directed_pairs(rng) -> list[dict]:
     fl_b = H18 + "agraph (float x) => (float[?,?] y)\n{\n  y = Flatten <axis = 1> (x)\n}\n"
     fold_mod = H18 + "agraph (float[2] x) => (float[2] y)\n<float[2] c1 = {1,2}, float[2] c2 = {3,4}>\n{\n  c = Add (c1, c2)\n  y = Add (x, c)\n}\n"
     fold_keep = H18 + "agraph (float[2] x) => (float[2] y)\n{\n  a = Abs (x)\n  y = Neg (a)\n}\n"
+    unsq_plain = H18 + "agraph (float[3] x) => (float[?,?,?] y)\n<int64[1] a1 = {0}, int64[1] a2 = {1}>\n{\n  a = Unsqueeze (x, a1)\n  y = Unsqueeze (a, a2)\n}\n"
+    unsq_named = H18 + "agraph (float[3] val_1) => (float[?,?,?] val_3)\n<int64[1] a1 = {0}, int64[1] val_2 = {1}>\n{\n  val_4 = Unsqueeze (val_1, a1)\n  val_3 = Unsqueeze (val_4, val_2)\n}\n"
     fold_sym = H18 + "agraph (float[N,4] x) => (int64[2] y)\n{\n  s = Shape (x)\n  y = Identity (s)\n}\n"
     fold_sym2 = H18 + "agraph (float[B,S,8] x) => (int64[1] y)\n<int64[1] st = {0}, int64[1] en = {1}>\n{\n  s = Shape (x)\n  y = Slice (s, st, en)\n}\n"
     ln1, _ = G.m_layer_norm(__import__("random").Random(5))
@@ -242,6 +244,11 @@ def directed_pairs(rng) -> list[dict]:
         {"tag": "fold:symbolic values recorded then none (shared pass)", "history": [M("fold", fold_sym)], "target": M("fold", fold_keep)},
         {"tag": "fold:symbolic values recorded then others", "history": [M("fold", fold_sym), M("fold", fold_mod)], "target": M("fold", fold_sym2)},
         {"tag": "fold:interrupted then modified", "history": [M("fold", fold_mod, raise_on="Add")], "target": M("fold", fold_mod)},
+        {"tag": "rewrite_pass:value names of the previous model (shared RewriteRuleSet._value_names)",
+         "history": [M("rewrite", unsq_named, rules="default_pass"), M("rewrite", unsq_named, rules="layer_norm")],
+         "target": M("rewrite", unsq_plain, rules="default_pass")},
+        {"tag": "rewrite_pass:fresh val_<n> names against the model's own names", "history": [M("rewrite", unsq_plain, rules="default_pass")],
+         "target": M("rewrite", unsq_named, rules="default_pass")},
         {"tag": "rewrite_pass:shared RewritePass", "history": [M("rewrite", rr_ok, rules="default_pass")], "target": M("rewrite", fold_keep, rules="default_pass")},
         {"tag": "opset:same domain other version", "history": [{"k": "opset", "domain": "my.dom", "version": 1}],
          "target": {"k": "script", "name": "dt", "src": "@script(MYOP, default_opset=op)\ndef dt(x: FLOAT[3]):\n    return op.Abs(x)\n",
@@ -433,6 +440,12 @@ class Checker:
                 fi = res.get("function_imports") or []
                 if not fi or len(fi[0]) < 3:
                     self.tie_failures.append((case, f"as_function case did not produce a function with three custom-domain imports: {fi}"))
+            elif op["k"] == "model" and op.get("rules") == "default_pass" and "new_val_names" in res:
+                if all("," not in n and " " not in n for n in res["names_before"]):
+                    self.model_lines.append((f"fresh {csvs(res['names_before'])} {len(res['new_val_names'])}", csvs(res["new_val_names"]), case))
+                    self.stats["fresh_value_name_cases"] += 1
+                    self.stats["fresh_value_names_created"] += len(res["new_val_names"])
+                    self.stats["fresh_value_names_skipping_existing"] += int(any(n.startswith("val_") for n in res["names_before"]) and bool(res["new_val_names"]))
             elif op["k"] == "model" and op.get("op") == "fold" and not res.get("err"):
                 self.stats["fold_modified" if res.get("modified") else "fold_unmodified"] += 1
         for k, v in (rep.get("events") or {}).items():
@@ -637,6 +650,9 @@ def regen_tables(run: core.Run) -> dict:
         "written_rows": {r["name"]: sorted({w["tag"] for w in r["writes"]}) for r in gdata["globalRows"] if r["writes"]},
         "rows_not_ok": sorted(r["name"] for r in gdata["globalRows"] if not all(wok(w) for w in r["writes"])),
         "register_calls_in_functions": gdata["registerCallsInFunctions"],
+        "private_entry_calls": gdata["privateEntryCalls"],
+        "id_hash_sites": len(gdata["idHashSites"]),
+        "id_hash_sites_other": [x["site"] for x in gdata["idHashSites"] if x["use"] not in ("membership", "repr")],
         "entry_rows": {r["name"] + "." + r["entry"]: {"earlyReads": r["earlyReads"], "helperReads": r.get("helperReads", []), "mayWrite": r["mayWrite"]} for r in gdata["entryRows"]},
         "set_iteration_sites": len(gdata["setIterSites"]),
         "set_iteration_order_sensitive": [f"{s['file']}:{s['line']} {s['func']} {s['sink']}" for s in gdata["setIterSites"] if s["orderSensitive"]],
@@ -764,7 +780,7 @@ def main(run: core.Run) -> None:
             grow = [[r["file"], r["name"].split(":", 1)[1]] for r in rows["globals"]["globalRows"] if not r["kind"].startswith("functools") and r["kind"] != "global"]
             frozen = {f"{r['file']}:{r['name'].split(':', 1)[1]}" for r in rows["globals"]["globalRows"] if not r["writes"]}
             gjobs = [(sd, {"id": f"gfp-f-{sd}", "ops": [{"k": "gfp", "rows": grow}]}) for sd in SEEDS[:3]]
-            for gi in range(run.size(6, 30)):
+            for gi in range(run.size(4, 30)):
                 hist = [strip_op(G.gen_history_op(run.rng, 9000 + gi * 10 + k)[0]) for k in range(run.rng.randint(3, 8))]
                 gjobs.append((SEEDS[gi % 3], {"id": f"gfp-h{gi}", "ops": hist + [{"k": "gfp", "rows": grow}]}))
             greps = pool.run(gjobs)
@@ -781,16 +797,16 @@ def main(run: core.Run) -> None:
                             chk.tie_failures.append(({"kind": "gfp", "object": key, "history": req["ops"][:-1], "seed": sd},
                                                      f"{key} is classified 'never written after import' by the generated table but its contents changed during a history of {len(req['ops']) - 1} operations"))
             hpairs = []
-            for hi in range(run.size(24, 200)):
+            for hi in range(run.size(16, 200)):
                 hop = G.gen_header(run.rng)[0]
                 hist = [G.gen_header(run.rng)[0] for _ in range(run.rng.randint(0, 3))]
                 hpairs.append({"tag": "header:to_model_proto opset imports / ir_version", "history": hist, "target": hop})
             chk.differential(hpairs, seeds_fresh=SEEDS[:2])
             kw_ops = [{"k": "kwseq", "decos": [{}], "fns": [0, 0], "calls": [[1, {"producer_name": 7}]], "target": [0, {}]},
                       {"k": "kwseq", "decos": [{"producer_name": 1}], "fns": [0], "calls": [[0, {"ir_version": 9, "io_types": 7}]], "target": [0, {"doc_string": 2}]}]
-            kw_ops += [G.gen_kwseq(run.rng)[0] for _ in range(run.size(40, 400))]
+            kw_ops += [G.gen_kwseq(run.rng)[0] for _ in range(run.size(30, 400))]
             chk.kwseq(kw_ops)
-            n_targets = run.size(60, 450)
+            n_targets = run.size(45, 450)
             n_hist = run.size(3, 4)
             bad_rows = [r["name"] for r in rows["rules"] + rows["ortRules"] if not extract_stash.row_ok(r) and r["name"] != "CosSinCacheFusion"]
             pairs = []
@@ -908,6 +924,8 @@ def main(run: core.Run) -> None:
         bad = (run.coverage["stash_table"]["rows_not_ok"] + run.coverage["stash_table"]["ort_rows_not_ok"]
                + ["global:" + n for n in gt["rows_not_ok"] if n != "_pattern_ir:ANY_VALUE"]
                + ["register-in-function:" + n for n in gt["register_calls_in_functions"]]
+               + ["private-entry-call:" + n for n in gt["private_entry_calls"]]
+               + ["id-or-hash-used-for-output:" + n for n in gt["id_hash_sites_other"]]
                + ["entry:" + k for k, v in gt["entry_rows"].items() if (v["earlyReads"] or v["helperReads"]) and not k.startswith("Converter.")]
                + ["set-iteration:" + x for x in gt["set_iteration_order_sensitive"] if "_translate_nested_function_def" not in x])
         if not chk.prop_failures:
@@ -942,7 +960,7 @@ def main(run: core.Run) -> None:
             "ctrl_sites", "ctrl_sites_iteration_unsorted", "uniq_calls", "as_function_rewrites", "kwseq_calls_on_siblings_of_target",
             "kwseq_calls_on_target", "ndarray_scripts_inplace_touching_body", "evalctx", "globals_fingerprint_histories",
             "true_fresh_processes", "history_failing_ops", "script_override_calls", "global_mutations_checked", "kw_model_lines",
-            "header_cases", "header_graph_without_std_opset", "header_std_from_function", "header_with_opset_version_kw", "header_std_from_kw_or_latest", "header_std_from_opset_version_kw",
+            "fresh_value_names_created", "fresh_value_names_skipping_existing", "header_cases", "header_graph_without_std_opset", "header_std_from_function", "header_with_opset_version_kw", "header_std_from_kw_or_latest", "header_std_from_opset_version_kw",
         ]
         zero = [k for k in required if not st[k]]
         if not (st["multi_domain_new_2"] + st["multi_domain_new_3"] + st["multi_domain_new_4"]):
